@@ -45,6 +45,7 @@ MUTS = [
  ("S8", "seeded class: resolve_type memoises __typename__ per Python CLASS of the value (non-dict values)", EX, "            maybe_type = (\n                value.get(\"__typename__\", None)\n                if isinstance(value, dict)\n                else getattr(value, \"__typename__\", None)\n            )", "            if isinstance(value, dict):\n                maybe_type = value.get(\"__typename__\", None)\n            else:\n                _c = self.__dict__.setdefault(\"_runtime_types\", {})\n                if type(value) not in _c:\n                    _c[type(value)] = getattr(value, \"__typename__\", None)\n                maybe_type = _c[type(value)]"),
  ("S9", "seeded class: _same_arguments drops explicit null literals before comparing", "src/py_gql/validation/rules/overlapping_fields_can_be_merged.py", "    if len(args_1) != len(args_2):\n        return False\n\n    s1 = sorted(args_1", "    args_1 = [a for a in args_1 if not isinstance(a.value, _ast.NullValue)]\n    args_2 = [a for a in args_2 if not isinstance(a.value, _ast.NullValue)]\n    if len(args_1) != len(args_2):\n        return False\n\n    s1 = sorted(args_1"),
  ("S10", "seeded class: fragment-pair memo looked up under the sorted key but stored under the unsorted one", "src/py_gql/validation/rules/overlapping_fields_can_be_merged.py", "    ctx.compared_fragment_pairs.add(cache_key)  # type: ignore", "    ctx.compared_fragment_pairs.add(((fragment_1, fragment_2), mutually_exclusive))  # type: ignore"),
+ ("S11", "seeded class: grouped-fields cache keyed on id(selections); single-node keys hand over the document's own list, several nodes a TEMPORARY merged list (id reused after GC)", "src/py_gql/execution/wrappers.py", "        cache_key = parent_type.name, tuple(selections)\n", "        cache_key = parent_type.name, id(selections)\n"),
  ("S3", "seeded class: _find_conflict tests isinstance(parent_1, ObjectType) twice", "src/py_gql/validation/rules/overlapping_fields_can_be_merged.py", "        and isinstance(parent_1, ObjectType)\n        and isinstance(parent_2, ObjectType)", "        and isinstance(parent_1, ObjectType)\n        and isinstance(parent_1, ObjectType)"),
 ]
 
@@ -72,9 +73,16 @@ def _merged_in_place(nodes):
     return merged
 '''
     open(p, 'w').write(txt)
+    if mid == "S11":
+        p2 = os.path.join(R, EX)
+        s2 = open(p2).read()
+        old2 = "                self.collect_fields(\n                    runtime_type,\n                    [\n                        selection\n                        for field in nodes\n                        if field.selection_set\n                        for selection in field.selection_set.selections\n                    ],\n                ),"
+        new2 = "                self.collect_fields(\n                    runtime_type,\n                    nodes[0].selection_set.selections\n                    if len(nodes) == 1 and nodes[0].selection_set\n                    else [\n                        selection\n                        for field in nodes\n                        if field.selection_set\n                        for selection in field.selection_set.selections\n                    ],\n                ),"
+        assert s2.count(old2) == 1, s2.count(old2)
+        open(p2, 'w').write(s2.replace(old2, new2))
     out = []
     for prop in ("C04", "C05"):
-        r = sh('PYGQL_REPO=%s /venv/bin/python harness/check.py %s --tier quick' % (R, prop), cwd=W)
+        r = sh('PYGQL_REPO=%s VERIF_SEED=%s /venv/bin/python harness/check.py %s --tier quick' % (R, os.environ.get('VERIF_SEED', '0'), prop), cwd=W)
         viol = [l for l in r.stdout.splitlines() if l.startswith('VIOLATION')]
         nf = sum('no-failing-input-found' in l for l in viol)
         sigs = []
